@@ -14,6 +14,7 @@ GENERATORS = {
     'packets': ('gen_packets', ['Packets.v']),
     'text': ('gen_text', ['TextTab.v']),
     'builder': ('gen_builder', ['BuilderTab.v']),
+    'files': ('gen_files', ['FilesTab.v']),
 }
 
 def write_if_changed(path, text):
